@@ -3,6 +3,8 @@
 # and cherry-pick the worker's `fix:` commits from branch agent/<name> of /repo onto /repo main.
 N=$1
 cd /verif
+git checkout -- evidence 2>/dev/null      # evidence is rewritten by every run; never let it block a merge
+if [ -n "$(git status --porcelain --untracked-files=no)" ]; then echo "verif working tree is dirty: commit first"; git status --short | head; exit 1; fi
 git merge --no-ff -m "merge $N" agent/$N > /tmp/merge_$N.log 2>&1 || {
   for f in $(git diff --name-only --diff-filter=U); do
     case $f in evidence/*|seeded/*) git checkout --ours -- $f; git add $f;; esac
